@@ -40,7 +40,8 @@ func (w *replayWindow) check(seq uint48) bool {
 
 	// 情况2：序列号在窗口左侧 → 拒绝
 	diff := w.right - seq
-	if diff >= uint48(w.size) {
+	// 位图只有 64 位：超出位图可表示范围的旧序列号无法判重，一律拒绝
+	if diff >= uint48(w.size) || diff >= 64 {
 		return false
 	}
 
